@@ -41,8 +41,15 @@ def gen_history(rng, maxlen=6):
         else:
             b = [rng.choice(keys) for _ in range(rng.randint(1, maxlen))]
         pairs.append((a, b))
-    calls = [{"mode": rng.choice(MODES), "distance": rng.random() < 0.3, "gop": rng.choice([-1, -2, -0.5]),
-              "scale": rng.choice([0.5, 1.0, 0.25])} for _ in range(rng.randint(1, 4))]
+    calls = []
+    for _ in range(rng.randint(1, 4)):
+        call = {"mode": rng.choice(MODES), "distance": rng.random() < 0.3, "gop": rng.choice([-1, -2, -0.5]),
+                "scale": rng.choice([0.5, 1.0, 0.25]), "factor": rng.choice([0.0, 0.3, 1.0]),
+                "restricted_chars": rng.choice(["T_", "", "_"])}
+        # the library's own defaults are part of what is exercised: every keyword is left out now and then
+        call["omit"] = sorted(k for k in ("mode", "distance", "gop", "scale", "factor", "restricted_chars", "model")
+                              if rng.random() < 0.3)
+        calls.append(call)
     return {"model": model, "pairs": pairs, "calls": calls}
 
 
@@ -52,11 +59,20 @@ def run_history(h):
     pw = Pairwise([(" ".join(a), " ".join(b)) for a, b in h["pairs"]])
     cases = []
     for ci, call in enumerate(h["calls"]):
-        pw.align(model=h["model"], mode=call["mode"], distance=call["distance"], gop=call["gop"], scale=call["scale"])
+        kw = {"model": h["model"], "mode": call["mode"], "distance": call["distance"], "gop": call["gop"],
+              "scale": call["scale"]}
+        for k in ("factor", "restricted_chars"):
+            if k in call:
+                kw[k] = call[k]
+        for k in call.get("omit", ()):
+            if k != "model" or h["model"] == "sca":  # the default model is sca; tokens are drawn from h["model"]
+                kw.pop(k, None)
+        pw.align(**kw)
+        mode = kw.get("mode", "global")
         for pi, (a, b) in enumerate(h["pairs"]):
             almA, almB, _ = pw.alignments[pi]
             cases.append({"history": h, "call": ci, "pair": pi, "tokA": list(a), "tokB": list(b),
-                          "local": call["mode"] == "local", "almA": list(almA), "almB": list(almB),
+                          "local": mode == "local", "almA": list(almA), "almB": list(almB),
                           "stored_tokens": [list(pw.tokens[pi][0]), list(pw.tokens[pi][1])]})
     return cases
 
@@ -89,6 +105,7 @@ def nontrivial(case, res):
 
 def classify(case, res):
     return ["call=%d" % case["call"], "mode=" + case["history"]["calls"][case["call"]]["mode"],
+            "omitted=%d" % len(case["history"]["calls"][case["call"]].get("omit", ())),
             "model=" + case["history"]["model"], "gaps>0" if "-" in res["almA"] + res["almB"] else "gaps=0"]
 
 
